@@ -472,8 +472,11 @@ def _heartbeats(run, F, PV, D, V2):
         rn_ = P.method(ci, "run")
         g = A.cfg(rn_, ci)
         udp = rn_.params[1]
-        for r in [n for n in A.own_nodes(rn_) if isinstance(n, ast.Return) and isinstance(n.value, ast.Tuple)
-                  and isinstance(n.value.elts[0], ast.Constant) and n.value.elts[0].value is True]:
+        okrets = [n for n in A.own_nodes(rn_) if isinstance(n, ast.Return) and isinstance(n.value, ast.Tuple)
+                  and isinstance(n.value.elts[0], ast.Constant) and n.value.elts[0].value is True]
+        run.check("R5", len(okrets) >= 1, f"{ci.name}.run reports success with the gathered heartbeat", key=f"{ci.name}.run|success-return", where=rn_.loc(),
+                  message=f"{ci.name}.run has no `(True, {{..}})` return: a gathered heartbeat is never reported (the client always gets a device error)")
+        for r in okrets:
             d = r.value.elts[1]
             want = {"pubKey": "self.send(Op.PUBKEY, self.NoData)[self.Offset.DATA:].hex()",
                     "message": "self.send(Op.GET_MESSAGE, self.NoData)[self.Offset.DATA:].hex()",
